@@ -4,6 +4,7 @@ CONSTANTS
   Runtimes = {"threaded"}
   MaxReq = 1
   Kinds = {"keep"}
+  SigTwice = FALSE
   Dev = {}
 SPECIFICATION Spec
 INVARIANTS Never_ReturnedDeepQueue
